@@ -1,6 +1,7 @@
 import MockeryModel.Run.Pipeline
 import MockeryLemmas.Pipeline
 import MockeryLemmas.Plan
+import MockeryModel.Run.EndToEnd
 /-!
 # C10 — Output files are written safely: no stray writes, no clobbering, all-or-nothing
 
@@ -166,5 +167,52 @@ example :
     (group [m1, m2, m3]).map (fun cs => cs.map (fun c => (c.path, c.mocks.map (·.structName)))) =
       .ok [("/m/p/mocks_test.go", ["MockA", "MockB"]), ("/m/out/b.go", ["StubB"])] ∧
     group [m1, { m2 with pkgName := "p_test" }] = .error .pkgName := ⟨rfl, rfl⟩
+
+/-! ## the whole run -/
+
+open Mockery.Config in
+/-- **end to end**: a path whose state a run changes is the resolved output file `Clean(dir/filename)` of a
+selected (package, interface, configs entry) – nothing else is ever created or modified, whatever the
+configuration, the sources, the initial file system and the outcome of the rendering stages -/
+theorem end_to_end_only_resolved_paths_of_selected_mocks (w : World) (t : Tree) (fs : FS) (p : String)
+    (hchg : (endToEnd w t fs).1 p ≠ fs p) :
+    ∃ pkgs mocks, initializeFull w.ft w.matcher w.subPkgs t = .ok pkgs ∧ selected w.matcher pkgs w.srcs = .ok mocks ∧
+      ∃ m ∈ mocks, ∃ pm, planMock w.configFile w.cwd (w.srcOf m.pkg m.iface) m = .ok pm ∧ pm.path = p ∧
+        pm.srcPkg = m.pkg ∧ pm.iface = m.iface ∧ pm.entry = m.entry := by
+  unfold endToEnd at hchg
+  cases hi : initializeFull w.ft w.matcher w.subPkgs t with
+  | error e => simp [hi] at hchg
+  | ok pkgs =>
+    cases hs : selected w.matcher pkgs w.srcs with
+    | error e => simp [hi, hs] at hchg
+    | ok mocks =>
+      cases hp : planAll w.configFile w.cwd w.srcOf mocks with
+      | error e => simp [hi, hs, hp] at hchg
+      | ok planned =>
+        cases hg : group planned with
+        | error e => simp [hi, hs, hp, hg] at hchg
+        | ok cs =>
+          simp only [hi, hs, hp, hg] at hchg
+          -- the changed path is the path of some job, i.e. of some collection
+          have hmem : p ∈ (cs.map (fun c => ({ w.render c with path := c.path } : FileJob))).map (·.path) := by
+            apply Classical.byContradiction
+            intro hn
+            apply hchg
+            simp only [run, Bool.false_eq_true, if_false]
+            exact processJobs_untouched _ fs p hn
+          simp only [List.map_map, List.mem_map, Function.comp] at hmem
+          obtain ⟨c, hc, hcp⟩ := hmem
+          have inv := groupFrom_inv planned [] cs [] hg ⟨by simp, by simp, by simp, by simp⟩
+          simp only [List.nil_append] at inv
+          have hne := inv.nonempty c hc
+          obtain ⟨hh, hsub⟩ := inv.homog c hc
+          cases hmk : c.mocks with
+          | nil => exact absurd hmk hne
+          | cons pm rest =>
+            have hpm : pm ∈ c.mocks := by rw [hmk]; exact List.mem_cons_self
+            obtain ⟨m, hm, hplan⟩ := planAll_spec _ _ _ mocks planned hp pm (hsub pm hpm)
+            obtain ⟨f1, f2, f3⟩ := planMock_fields hplan
+            exact ⟨pkgs, mocks, rfl, hs, m, hm, pm, hplan, ((hh pm hpm).1).trans hcp, f1, f2, f3⟩
+
 
 end Mockery.C10
